@@ -250,13 +250,13 @@ fn dump3(m: &CMap3<f64>, mask: u32, out: &mut String) {
             u8::from(peek_unused(m, d))
         )
         .unwrap();
-        match m.force_read_vertex(d) {
+        match safe_read(|| m.force_read_vertex(d)) {
             Some(v) => write!(out, " 1 {} {} {}", ftok(v.x()), ftok(v.y()), ftok(v.z())).unwrap(),
             None => out.push_str(" 0"),
         }
         for k in 0..N_KINDS {
             if mask & (1 << k) != 0 {
-                match read_attr3(m, k, d) {
+                match safe_read(|| read_attr3(m, k, d)) {
                     Some(a) => write!(out, " 1 {a}").unwrap(),
                     None => out.push_str(" 0"),
                 }
@@ -736,6 +736,7 @@ fn run_case(id: &str, mask: u32, hdr: (u32, u32, u32, u32), ops: &mut dyn FnMut(
                 query3(&m, &mut line);
             } else {
                 dump3(&m, mask, &mut line);
+                mark_dump_panics(id, k, &mut line);
             }
             writeln!(out.obs, "{line}").unwrap();
             line.clear();
